@@ -28,6 +28,11 @@ CLAIMED = {
    note="Trusted: Coq kernel + vm_compute; correspondence driver; Python re is validated differentially (framing model = first-occurrence splitting, argued equivalent to the lazy/greedy regex in DESIGN); struct pack/unpack and int() as modelled. Known finding K4 (SETWC, WCREQ claimed by no handler) appears as owner = None with c04_every_message_claimed_refuted. Two genuine defects were repaired (fix commits 6805286, eb7b054). Closed under the global context.",
    technique="Rocq proof (list/byte-string lemmas, lia for div/mod, finite vm_compute sweeps) + differential correspondence of codecs",
    design="3/C04"),
+ "C05": dict(
+   text="Machine-checked proof over a model of both long-lived partial-status handlers (pending-change list, acknowledgement before parsing, reset-per-message in the async client, clear-after-apply in the threaded one, error branches for truncated records), composed with the C04 STATP codec and the AST-translated C16 counters: for ANY interleaving of full refreshes and well-formed partial messages the client block equals the left fold of the updates (each once, in arrival order, nothing replayed) and each partial message is answered by exactly one STATQ numbered consecutively in 1..191. Correspondence: random histories (repeated positions, 1-byte changes, refreshes over the same bytes, malformed STATP) on the real handler objects of GeckoAsyncSpa and GeckoSpa, block after every event and ack datagrams compared inside Coq.",
+   note="Trusted: Coq kernel + vm_compute; correspondence driver (drives async_handle/async_handled and dispatch_recevied_data as consume()/the engine thread do; the polling loop itself is C07/C20). Closed under the global context.",
+   technique="Rocq proof by induction over histories with a state invariant + differential history correspondence",
+   design="3/C05"),
 }
 
 REASON_PENDING = "check not built yet in this round (model and correspondence under construction; see DESIGN.md section 8)"
